@@ -46,6 +46,7 @@ def parseOp (j : Json) : Except String Op := do
   | "delegate" => pure (.delegate (← getF j "creator") (← getF j "val") (← getF j "amount"))
   | "undelegate" => pure (.undelegate (← getF j "creator") (← getF j "val") (← getF j "amount"))
   | "restart" => pure .restart
+  | "genesis" => pure .genesis
   | other => pure (.unmodelled other)
 
 def parseRes (s : String) : Res :=
